@@ -47,7 +47,7 @@ struct Builder {
 		for (int i = 0; i < ninputs; ++i) plan.inputs.push_back(Blob(INPUT_LENS[i % 10], (uint64_t)2000 + i));
 	}
 	Op &emit(int kind) { Op o; o.kind = kind; o.phase = phase; o.task = task; plan.ops.push_back(o); return plan.ops.back(); }
-	int rnd_heap() { return (int)rng.below(8); }
+	int rnd_heap() { return (int)rng.below(16); }
 	int64_t rnd_env() {
 		uint32_t v = 0;
 		v |= (uint32_t)rng.below(4) << 13;            // rounding control
@@ -282,6 +282,28 @@ static void history(Builder &b, const HistoryOpts &ho) {
 			} else d = rng.pick(dc);
 			int v = b.free_v(); if (v < 0 || b.live_vms() >= 4) continue;
 			b.create_vm(v, vm_flags_fast(), rng.chance(1, 3) ? rng.pick(ready) : -1, d, b.rnd_heap());
+		} else if (r < 20) { // recycle a dataset: release it while fast VMs live, allocate a new one (the heap policy decides whether
+			// the small dataset object and/or its memory come back at the old addresses), initialise, re-bind
+			if (!want_fast || ready.empty()) continue;
+			auto dc = b.datasets_complete();
+			if (dc.empty()) continue;
+			int d = rng.pick(dc);
+			{ bool in_batch = false; for (int w : vms) if (b.V[w].batch && (b.V[w].flags & F_FULL) && b.V[w].d == d) in_batch = true; if (in_batch) continue; }
+			uint32_t oldflags = b.D[d].flags; int oldkey = b.D[d].key;
+			b.release_dataset(d);
+			if (rng.chance(1, 3)) { // unrelated allocation in between
+				int c3 = b.free_c();
+				if (c3 >= 0 && b.live_caches() < 3) { b.alloc_cache(c3, b.rnd_cache_flags(), b.rnd_heap()); b.init_cache(c3, b.rnd_key()); ready = b.caches_ready(); }
+			}
+			int d2 = rng.chance(1, 2) ? d : b.free_d();
+			if (d2 < 0 || b.D[d2].alive) d2 = b.free_d();
+			if (d2 < 0) continue;
+			int heap = rng.chance(1, 2) ? seam::HP_REUSE_TINY : b.rnd_heap();
+			b.alloc_dataset(d2, rng.chance(2, 3) ? oldflags : (rng.chance(1, 2) ? F_LARGE : 0), heap);
+			int src = rng.pick(ready);
+			if (rng.chance(1, 2)) for (int c : ready) if (b.C[c].key == oldkey) src = c;
+			b.init_dataset_full(d2, src);
+			for (int w : vms) if (b.V[w].alive && (b.V[w].flags & F_FULL) && !b.V[w].batch && rng.chance(3, 4)) { b.set_dataset(w, d2); if (rng.chance(3, 4)) b.hash(w, b.rnd_input()); }
 		} else if (r < 22) { // re-initialise a complete dataset in place from another key, or bind a fast VM to another dataset
 			if (!want_fast || ready.empty()) continue;
 			auto dc = b.datasets_complete();
